@@ -550,7 +550,7 @@ fn c13_http_unknown_method() {
 #[kani::proof]
 #[kani::unwind(40)]
 #[kani::stub(crate::proto::http::http_init, crate::proto::http::verif_http_init_stub)]
-#[kani::stub(chrono::Utc::now, utc_now_stub)]
+#[kani::stub(chrono::Utc::now, crate::verif_util::utc_now_stub)]
 fn c13_http_request_crlf() {
     http_request(false, log::LevelFilter::Off)
 }
@@ -567,7 +567,7 @@ fn c13_http_request_crlf() {
 #[kani::proof]
 #[kani::unwind(40)]
 #[kani::stub(crate::proto::http::http_init, crate::proto::http::verif_http_init_stub)]
-#[kani::stub(chrono::Utc::now, utc_now_stub)]
+#[kani::stub(chrono::Utc::now, crate::verif_util::utc_now_stub)]
 fn c13_http_request_header() {
     http_request(true, log::LevelFilter::Off)
 }
@@ -584,7 +584,7 @@ fn c13_http_request_header() {
 #[kani::proof]
 #[kani::unwind(40)]
 #[kani::stub(crate::proto::http::http_init, crate::proto::http::verif_http_init_stub)]
-#[kani::stub(chrono::Utc::now, utc_now_stub)]
+#[kani::stub(chrono::Utc::now, crate::verif_util::utc_now_stub)]
 fn c01_http_request_warn() {
     http_request(false, log::LevelFilter::Warn)
 }
@@ -600,7 +600,7 @@ fn c01_http_request_warn() {
 #[kani::proof]
 #[kani::unwind(460)]
 #[kani::stub(crate::proto::http::http_init, crate::proto::http::verif_http_init_stub)]
-#[kani::stub(chrono::Utc::now, utc_now_stub)]
+#[kani::stub(chrono::Utc::now, crate::verif_util::utc_now_stub)]
 fn c13_http_response() {
     http_response()
 }
